@@ -33,6 +33,12 @@ def err_name(exc):
 
 def err(exc, **kw):
     d = {'err': err_name(exc), 'cls': type(exc).__name__, 'msg': str(exc)[:300]}
+    tb = exc.__traceback__
+    while tb is not None:                      # the generated file the exception comes from, if any
+        fn = tb.tb_frame.f_code.co_filename
+        if os.sep + 'out' + os.sep in fn:
+            d['file'] = os.path.basename(fn)
+        tb = tb.tb_next
     d.update(kw)
     return d
 
